@@ -1671,3 +1671,386 @@ Proof.
       exists (F16 (w16 n8 n9)). split; [reflexivity|]. intros a. apply filter16_matches. intros X. apply Hne. rewrite X. reflexivity.
     + inversion Hr; subst ty. eexists. split; [reflexivity|]. intros a. apply filter128_matches.
 Qed.
+
+Lemma rd_prefix5 a0 a1 a2 a3 a4 (t : list N) :
+  let pdu := a0 :: a1 :: a2 :: a3 :: a4 :: t in
+  rd pdu 0 = Some a0 /\ rd16 pdu 1 = Some (a1 + 256 * a2) /\ rd16 pdu 3 = Some (a3 + 256 * a4).
+Proof.
+  cbv zeta. unfold rd16, rd.
+  assert (H : 5 <= len (a0 :: a1 :: a2 :: a3 :: a4 :: t)) by (unfold len; cbn [length]; lia).
+  replace (0 <? len (a0 :: a1 :: a2 :: a3 :: a4 :: t)) with true by lia.
+  replace (1 <? len (a0 :: a1 :: a2 :: a3 :: a4 :: t)) with true by lia.
+  replace (1 + 1 <? len (a0 :: a1 :: a2 :: a3 :: a4 :: t)) with true by lia.
+  replace (3 <? len (a0 :: a1 :: a2 :: a3 :: a4 :: t)) with true by lia.
+  replace (3 + 1 <? len (a0 :: a1 :: a2 :: a3 :: a4 :: t)) with true by lia.
+  repeat split; reflexivity.
+Qed.
+
+Lemma matching_type c ty lo hi :
+  matching c (KType ty) lo hi
+  = filter (fun x => (fst x <=? hi) && type_matches (KType ty) (snd x)) (from_handle lo (table c)).
+Proof.
+  unfold matching, from_handle. rewrite filter_filter. apply filter_ext_in'. intros x _. unfold in_range.
+  destruct (lo <=? fst x), (fst x <=? hi); reflexivity.
+Qed.
+
+Lemma subseq_nil_r {A : Type} (l : list A) : subseq l [] -> l = [].
+Proof. intros H. inversion H. reflexivity. Qed.
+
+(* C02 for Read By Type, what holds of the code as it is: the response is Attribute Not Found, or it holds a
+   non-empty list of entries of one size whose handles are a SUBSEQUENCE of the handles of the matching
+   attributes (in range, of the requested type, ascending, each at most once). Hence Attribute Not Found
+   whenever nothing matches. Stated for out_size <= 257 (above, collect_attributes::size() truncates: C01) *)
+Theorem read_by_type_partial c st cid a0 a1 x0 x1 tyb ty b out_size st' r :
+  wf c -> no_includes c ->
+  a0 < 256 -> a1 < 256 -> x0 < 256 -> x1 < 256 ->
+  req_type tyb = Some ty -> ty <> U16 internal_128bit_uuid ->
+  let lo := w16 a0 a1 in let hi := w16 x0 x1 in
+  1 <= lo -> lo <= hi -> 23 <= out_size -> out_size <= 257 -> out_size <= len b ->
+  handle_read_by_type c st cid (8 :: a0 :: a1 :: x0 :: x1 :: tyb) b out_size = Some (st', r) ->
+  (snd r = 5 /\ seg 0 5 (fst r) = [1; 8; a0; a1; 10])
+  \/ (exists E sz, E <> [] /\ subseq (map fst E) (map fst (matching c (KType ty) lo hi))
+        /\ (forall x, In x E -> len (snd x) + 2 = sz)
+        /\ snd r <= out_size /\ snd r <= len (fst r)
+        /\ seg 0 (snd r) (fst r) = 9 :: sz :: flat_map ebytes E).
+Proof.
+  intros Hw Hn Ha0 Ha1 Hx0 Hx1 Hty Hne lo hi Hlo Hhi Ho Ho2 Hb H.
+  destruct (make_filter_spec a0 a1 x0 x1 tyb ty Hty Hne) as (Hlen & f & Hmk & Hf). cbv zeta in Hlen, Hmk.
+  unfold handle_read_by_type, check_size_and_handle_range in H.
+  destruct (rd_prefix5 8 a0 a1 x0 x1 tyb) as (R0 & R1 & R3). cbv zeta in R0, R1, R3.
+  set (pdu := 8 :: a0 :: a1 :: x0 :: x1 :: tyb) in *.
+  rewrite R0 in H. cbv iota beta in H.
+  replace (negb (len pdu =? 7) && negb (len pdu =? 21)) with false in H by (destruct Hlen as [-> | ->]; reflexivity).
+  rewrite R1, R3 in H. cbv iota beta in H. fold (w16 a0 a1) in H. fold (w16 x0 x1) in H. fold lo in H. fold hi in H.
+  replace ((lo =? 0) || (hi <? lo)) with false in H by lia.
+  destruct (from_first_index c lo Hw Hn) as [F1 F2].
+  destruct (first_index_by_handle c lo =? invalid_index) eqn:Efi.
+  - destruct (error_response 8 err_attribute_not_found lo b out_size) as [r'|] eqn:Ee; [|discriminate].
+    inversion H; subst st' r'. apply error_response_bytes in Ee; auto; [|lia]. left. tauto.
+  - apply N.eqb_neq in Efi. destruct (F2 Efi) as [F3 F4].
+    rewrite Hmk in H. cbv iota beta in H.
+    destruct (all_attributes _ c st cid f _ out_size _ _ hi) as [[st1 k]|] eqn:Ea; [|discriminate].
+    apply (aa_loop c cid f out_size _ hi ty Hw Hn Hf _ _ _ _ _ _ []) in Ea; cbn [co_cur co_buf]; try lia.
+    2:{ unfold col_inv. cbn [co_cur co_buf co_first co_size]. rewrite seg_nil.
+        split; [lia|]. split; [reflexivity|]. split; [reflexivity|]. split; [intros X; discriminate X|intros x []]. }
+    destruct Ea as (E & I1 & I2 & I3 & I4). cbn [app] in I1. cbn [co_buf co_cur] in I2, I3. rewrite F4, <- matching_type in I4.
+    destruct I1 as (J1 & J2 & J3 & J4 & J5).
+    destruct (co_cur k =? 2) eqn:E2.
+    + cbn [negb] in H. destruct (error_response 8 err_attribute_not_found lo (co_buf k) out_size) as [r'|] eqn:Ee; [|discriminate].
+      inversion H; subst st' r'. apply error_response_bytes in Ee; auto; [|lia]. left. tauto.
+    + cbn [negb] in H. apply N.eqb_neq in E2.
+      destruct (put (co_buf k) 0 [9; co_size k]) as [b1|] eqn:Ep; [|discriminate].
+      apply AttSrvProofsC01.some_inj in H. apply AttSrvProofsC01.pair_inj in H. destruct H as [<- <-].
+      cbn [fst snd]. pose proof (put_length _ _ _ _ Ep) as Lp.
+      rewrite N.mod_small by lia. replace (2 + (co_cur k - 2)) with (co_cur k) by lia.
+      right. exists E, (co_size k).
+      assert (HE : E <> []).
+      { intros ->. cbn [flat_map] in J2. assert (X : len (seg 2 (co_cur k) (co_buf k)) = 0) by (rewrite J2; reflexivity).
+        rewrite seg_len in X. lia. }
+      split; [exact HE|]. split; [exact I4|]. split; [exact J5|]. split; [lia|]. split; [lia|].
+      rewrite (seg_app 0 2) by lia. rewrite (seg_put_other _ _ _ _ 2 (co_cur k) Ep) by (unfold len; cbn; lia).
+      rewrite J2. pose proof (seg_put_self _ _ _ _ Ep) as X. change (0 + len [9; co_size k]) with 2 in X. rewrite X. reflexivity.
+Qed.
+
+Corollary read_by_type_not_found_if_none c st cid a0 a1 x0 x1 tyb ty b out_size st' r :
+  wf c -> no_includes c ->
+  a0 < 256 -> a1 < 256 -> x0 < 256 -> x1 < 256 ->
+  req_type tyb = Some ty -> ty <> U16 internal_128bit_uuid ->
+  1 <= w16 a0 a1 -> w16 a0 a1 <= w16 x0 x1 -> 23 <= out_size -> out_size <= 257 -> out_size <= len b ->
+  handle_read_by_type c st cid (8 :: a0 :: a1 :: x0 :: x1 :: tyb) b out_size = Some (st', r) ->
+  matching c (KType ty) (w16 a0 a1) (w16 x0 x1) = [] ->
+  snd r = 5 /\ seg 0 5 (fst r) = [1; 8; a0; a1; 10].
+Proof.
+  intros Hw Hn Ha0 Ha1 Hx0 Hx1 Hty Hne Hlo Hhi Ho Ho2 Hb H Hm.
+  destruct (read_by_type_partial c st cid a0 a1 x0 x1 tyb ty b out_size st' r) as [X|(E & sz & X1 & X2 & _)]; auto.
+  rewrite Hm in X2. cbn [map] in X2. apply subseq_nil_r in X2. destruct E; [congruence|discriminate X2].
+Qed.
+
+(* ================================================================== what "subsequence / prefix of matching" gives *)
+Lemma matching_sound c k lo hi x :
+  In x (matching c k lo hi) -> In x (table c) /\ in_range lo hi (fst x) = true /\ type_matches k (snd x) = true.
+Proof.
+  unfold matching. intros H. apply filter_In in H. destruct H as [H1 H2]. apply andb_true_iff in H2. tauto.
+Qed.
+
+Lemma matching_sorted c k lo hi : wf c -> no_includes c -> increasing_from 0 (map fst (matching c k lo hi)) = true.
+Proof.
+  intros Hw Hn. unfold matching.
+  assert (G : forall (f : N * attr -> bool) T p, increasing_from p (map fst T) = true -> increasing_from p (map fst (filter f T)) = true).
+  { intros f T. induction T as [|x t IH]; intros p H; cbn [filter map increasing_from] in *; auto.
+    apply andb_true_iff in H. destruct H as [H1 H2]. destruct (f x); cbn [map increasing_from].
+    - rewrite H1. cbn [andb]. auto.
+    - apply IH. apply (increasing_from_weaken (fst x)); [lia|auto]. }
+  apply G. apply table_sorted; auto.
+Qed.
+
+(* handles that are a subsequence of the matching handles: all in range, of the type, strictly ascending *)
+Lemma subseq_of_matching c k lo hi hs :
+  wf c -> no_includes c -> subseq hs (map fst (matching c k lo hi)) ->
+  increasing_from 0 hs = true
+  /\ forall h, In h hs -> in_range lo hi h = true /\ exists a, In (h, a) (table c) /\ type_matches k a = true.
+Proof.
+  intros Hw Hn Hs. split; [eapply subseq_increasing; eauto; apply matching_sorted; auto|].
+  intros h Hh. pose proof (subseq_in _ _ _ Hs Hh) as X. apply in_map_iff in X. destruct X as [[h' a] [E X]]. cbn [fst] in E. subst h'.
+  destruct (matching_sound _ _ _ _ _ X) as (X1 & X2 & X3). cbn [fst snd] in *. split; auto. exists a. auto.
+Qed.
+
+(* ================================================================== Part D3': Read By Type answers if a readable attribute matches *)
+Definition is_chardecl (a : attr) : bool := match a with ACharDecl _ _ => true | _ => false end.
+Definition decl_succ (l : list attr) : Prop := forall j, match nth_error l j with Some a => is_chardecl a = true -> (S j < length l)%nat | None => True end.
+
+Lemma decl_succ_app l1 l2 : decl_succ l1 -> decl_succ l2 -> decl_succ (l1 ++ l2).
+Proof.
+  intros H1 H2 j. destruct (Nat.lt_ge_cases j (length l1)) as [Hlt|Hge].
+  - rewrite nth_error_app1 by lia. specialize (H1 j). destruct (nth_error l1 j); auto. intros X. specialize (H1 X). rewrite app_length. lia.
+  - rewrite nth_error_app2 by lia. specialize (H2 (j - length l1)%nat). destruct (nth_error l2 (j - length l1)); auto.
+    intros X. specialize (H2 X). rewrite app_length. lia.
+Qed.
+
+Lemma decl_succ_none l : (forall a, In a l -> is_chardecl a = false) -> decl_succ l.
+Proof. intros H j. destruct (nth_error l j) eqn:E; auto. apply nth_error_In in E. rewrite (H _ E). discriminate. Qed.
+
+Lemma char_tail_no_decl s ch cci a : In a (char_tail_attrs s ch cci) -> is_chardecl a = false.
+Proof.
+  unfold char_tail_attrs. intros H.
+  apply in_app_or in H. destruct H as [H|H]; [destruct (has_cccd ch); [destruct H as [<-|[]]; reflexivity|destruct H]|].
+  apply in_app_or in H. destruct H as [H|H]; [destruct (c_name ch); [destruct H as [<-|[]]; reflexivity|destruct H]|].
+  apply in_map_iff in H. destruct H as [d [<- _]]. reflexivity.
+Qed.
+
+Lemma decl_attrs_succ c : decl_succ (decl_attrs c).
+Proof.
+  unfold decl_attrs. induction (services c) as [|s t IH]; cbn [flat_map]; [intros j; destruct j; exact I|].
+  apply decl_succ_app; auto. unfold svc_decl_attrs.
+  change (AService s :: map AInclude (s_includes s) ++ flat_map (fun ch => char_attrs s ch O 0) (s_chars s))
+    with ((AService s :: map AInclude (s_includes s)) ++ flat_map (fun ch => char_attrs s ch O 0) (s_chars s)).
+  apply decl_succ_app.
+  - apply decl_succ_none. intros a [<-|H]; [reflexivity|]. apply in_map_iff in H. destruct H as [u [<- _]]. reflexivity.
+  - induction (s_chars s) as [|ch cs IHc]; cbn [flat_map]; [intros j; destruct j; exact I|].
+    apply decl_succ_app; auto. intros j. unfold char_attrs. destruct j as [|[|j]]; cbn [nth_error length].
+    + intros _. lia.
+    + intros X. discriminate X.
+    + destruct (nth_error (char_tail_attrs s ch 0) j) eqn:E; auto. apply nth_error_In in E. rewrite (char_tail_no_decl _ _ _ _ E). discriminate.
+Qed.
+
+Lemma chardecl_has_value c i s ch : attribute_at c i = Some (ACharDecl s ch) -> i + 1 < number_of_attributes c.
+Proof.
+  intros H. pose proof (attribute_at_decl c i) as X. rewrite H in X. cbn [option_map erase] in X.
+  pose proof (decl_attrs_succ c (N.to_nat i)) as Y. rewrite <- X in Y. specialize (Y eq_refl).
+  pose proof (decl_attrs_len c) as L. unfold len in L. lia.
+Qed.
+
+(* a readable attribute is read successfully, in every state of every connection *)
+Lemma access_read_readable c st cid k a index maxlen :
+  wf c -> no_includes c -> attribute_at c index = Some a -> readable c (erase a) = true -> get_conn st cid = Some k ->
+  exists st' d, access_read c st cid a index 0 maxlen = Some (st', Success, d) /\ conns st' = conns st.
+Proof.
+  intros Hw Hn Ha Hr Hk. unfold access_read. rewrite Hk.
+  assert (Hm : forall mem, mem_read mem 0 maxlen = (Success, takeN (N.min maxlen (len mem - 0)) (dropN 0 mem))).
+  { intros mem. unfold mem_read. replace (len mem <? 0) with false by lia. reflexivity. }
+  destruct a as [s|u|s ch|s ch g cci|s ch cci|nm|u v]; cbn [erase readable] in Hr.
+  - rewrite Hm. eauto.
+  - rewrite Hm. eauto.
+  - pose proof (chardecl_has_value c index s ch Ha) as Hi. unfold char_decl_value. cbv zeta.
+    destruct (index_by_handle_inverse c (index + 1) Hw Hn Hi) as [_ Hh].
+    replace (handle_by_index c (index + 1) =? invalid_handle) with false by (symmetry; apply N.eqb_neq; exact Hh).
+    rewrite Hm. eauto.
+  - apply andb_true_iff in Hr. destruct Hr as [Hr1 Hr2]. apply negb_true_iff in Hr1.
+    unfold value_read. rewrite Hr1. cbn [security_check negb fst snd].
+    destruct (c_value ch) as [sz cst|sz v|bs|sz hrd hwr blob].
+    + apply negb_true_iff in Hr2. rewrite Hr2, Hm. eauto.
+    + apply negb_true_iff in Hr2. rewrite Hr2, Hm. eauto.
+    + rewrite Hm. eauto.
+    + rewrite Hr2. cbn [negb]. rewrite N.eqb_refl. cbn [negb]. rewrite andb_false_r. rewrite Hm.
+      eexists _, _. split; [reflexivity|]. unfold log_call, set_hlogs. reflexivity.
+  - apply negb_true_iff in Hr. rewrite Hr. cbn [security_check negb fst snd]. rewrite Hm. eauto.
+  - rewrite Hm. eauto.
+  - rewrite Hm. eauto.
+Qed.
+
+Lemma access_read_conns c st cid a index off maxlen st' r d :
+  access_read c st cid a index off maxlen = Some (st', r, d) -> conns st' = conns st.
+Proof.
+  unfold access_read. destruct (get_conn st cid) as [k|]; [|discriminate]. cbv zeta.
+  destruct a as [s|u|s ch|s ch g cci|s ch cci|nm|u v].
+  - destruct (mem_read _ _ _). intros H; inversion H; reflexivity.
+  - destruct (mem_read _ _ _). intros H; inversion H; reflexivity.
+  - destruct (char_decl_value c ch index); [|discriminate]. destruct (mem_read _ _ _). intros H; inversion H; reflexivity.
+  - unfold value_read. destruct (security_check _ _ _); try (intros H; inversion H; reflexivity).
+    destruct (c_value ch).
+    + destruct (c_no_read ch); [intros H; inversion H; reflexivity|]. destruct (mem_read _ _ _). intros H; inversion H; reflexivity.
+    + destruct (c_no_read ch); [intros H; inversion H; reflexivity|]. destruct (mem_read _ _ _). intros H; inversion H; reflexivity.
+    + destruct (mem_read _ _ _). intros H; inversion H; reflexivity.
+    + destruct (negb rd); [intros H; inversion H; reflexivity|].
+      destruct (negb blob && negb (off =? 0)); [intros H; inversion H; reflexivity|].
+      destruct (mem_read _ _ _). intros H; inversion H; reflexivity.
+  - destruct (security_check _ _ _); try (intros H; inversion H; reflexivity).
+    destruct (mem_read _ _ _). intros H; inversion H; reflexivity.
+  - destruct (mem_read _ _ _). intros H; inversion H; reflexivity.
+  - destruct (mem_read _ _ _). intros H; inversion H; reflexivity.
+Qed.
+
+Lemma get_conn_conns st st' cid : conns st' = conns st -> get_conn st' cid = get_conn st cid.
+Proof. unfold get_conn. intros ->. reflexivity. Qed.
+
+(* one attribute: the collector keeps "something collected"; a successful read is collected if nothing was *)
+Lemma collect_attribute_first c st cid k e index a st' k' :
+  collect_attribute c st cid k e index a = Some (st', k') ->
+  conns st' = conns st
+  /\ (co_first k = false -> co_first k' = false)
+  /\ (co_first k' = true -> co_cur k' = co_cur k)
+  /\ (co_first k = true -> co_cur k + 2 <= e ->
+      (exists st1 d, access_read c st cid a index 0 (N.min (e - co_cur k) 255 - 2) = Some (st1, Success, d)) -> co_first k' = false).
+Proof.
+  unfold collect_attribute. intros H.
+  destruct (2 <=? e - co_cur k) eqn:E2.
+  - cbv zeta in H. destruct (access_read c st cid a index 0 _) as [[[st1 rc] d]|] eqn:Ea; [|discriminate].
+    pose proof (access_read_conns _ _ _ _ _ _ _ _ _ _ Ea) as Hc.
+    destruct rc.
+    + destruct (253 <? len d); [discriminate|]. destruct (put (co_buf k) (co_cur k + 2) d) as [b1|]; [|discriminate].
+      destruct (len d + 2 =? _); [destruct (put b1 (co_cur k) _); [|discriminate]|]; inversion H; subst st' k'; cbn [co_first co_cur];
+        repeat split; auto; intros X; discriminate X.
+    + inversion H; subst st' k'. repeat split; auto. intros _ _ (s1 & d1 & X). discriminate X.
+    + inversion H; subst st' k'. repeat split; auto. intros _ _ (s1 & d1 & X). discriminate X.
+  - inversion H; subst st' k'. repeat split; auto. intros _ X. lia.
+Qed.
+
+Lemma increasing_nth_lt p l i j : increasing_from p l = true -> (i < j)%nat -> (j < length l)%nat -> nth i l 0 < nth j l 0.
+Proof.
+  revert p i j; induction l as [|x t IH]; intros p i j H Hij Hj; cbn [length] in Hj; [lia|].
+  cbn [increasing_from] in H. apply andb_true_iff in H. destruct H as [H1 H2].
+  destruct j as [|j]; [lia|]. destruct i as [|i]; cbn [nth].
+  - apply (increasing_from_lower x t); auto. apply nth_In. lia.
+  - apply (IH x); auto; lia.
+Qed.
+
+(* the last index of the Read By Type scan does not cut off an attribute at or in front of the ending handle *)
+Lemma last_index_covers c eh index :
+  wf c -> no_includes c -> index < number_of_attributes c -> handle_by_index c index <= eh ->
+  index <= last_handle_index c eh.
+Proof.
+  intros Hw Hn Hi Hh. unfold last_handle_index. cbv zeta.
+  destruct (first_index_by_handle c eh =? invalid_index) eqn:E; [lia|]. apply N.eqb_neq in E.
+  destruct (N.le_gt_cases index (first_index_by_handle c eh)) as [|Hgt]; [assumption|exfalso].
+  (* the attribute in front of [index] would already be at or behind eh *)
+  assert (Hp : index - 1 < number_of_attributes c) by lia.
+  pose proof (idx_ge_iff c eh (index - 1) Hw Hn Hp) as X.
+  replace (first_index_by_handle c eh =? invalid_index) with false in X by (symmetry; apply N.eqb_neq; exact E).
+  replace (first_index_by_handle c eh <=? index - 1) with true in X by lia. cbn [negb andb] in X. symmetry in X. apply N.leb_le in X.
+  rewrite !handle_by_index_nth in * by (auto; lia).
+  pose proof (assign_length c Hw Hn) as Hl.
+  assert (Hlt : nth (N.to_nat (index - 1)) (assign c) 0 < nth (N.to_nat index) (assign c) 0)
+    by (apply (increasing_nth_lt 0); [apply assign_increasing|lia|lia]).
+  lia.
+Qed.
+
+Lemma skipn_table_sorted c i x W :
+  wf c -> no_includes c -> skipn i (table c) = x :: W -> forall y, In y W -> fst x < fst y.
+Proof.
+  intros Hw Hn Hsk y Hy. pose proof (table_sorted c Hw Hn) as Hs.
+  rewrite <- (firstn_skipn i (table c)), Hsk, map_app in Hs. apply increasing_from_app in Hs. destruct Hs as [_ Hs].
+  cbn [map increasing_from] in Hs. apply andb_true_iff in Hs. destruct Hs as [_ Hs].
+  apply (increasing_from_lower _ _ _ Hs). apply in_map. exact Hy.
+Qed.
+
+Definition wanted_readable (c : cfg) (ty : uuid) (eh : N) (x : N * attr) : bool :=
+  (fst x <=? eh) && type_matches (KType ty) (snd x) && readable c (snd x).
+
+Lemma aa_answers c cid f e eh ty : wf c -> no_includes c ->
+  (forall a, uuid_filter_match f a = type_matches (KType ty) (erase a)) ->
+  forall fuel st k index st' k' kk,
+  all_attributes fuel c st cid f k e index (last_handle_index c eh) eh = Some (st', k') ->
+  get_conn st cid = Some kk ->
+  (N.to_nat (number_of_attributes c - index) < fuel)%nat ->
+  (co_first k = false -> co_first k' = false)
+  /\ (co_first k = true -> co_cur k + 2 <= e ->
+      existsb (wanted_readable c ty eh) (skipn (N.to_nat index) (table c)) = true -> co_first k' = false).
+Proof.
+  intros Hw Hn Hf. induction fuel as [|n IH]; intros st k index st' k' kk H Hk Hfu; [lia|].
+  cbn [all_attributes] in H.
+  destruct (index <? number_of_attributes c) eqn:Ei.
+  - destruct (table_step c index Hw Hn ltac:(lia)) as (a & Ha & Hsk & Hin). rewrite Hsk. cbn [existsb].
+    destruct ((index <=? last_handle_index c eh) && (handle_by_index c index <=? eh)) eqn:Ec.
+    + rewrite Ha in H. apply andb_true_iff in Ec. destruct Ec as [_ Ec].
+      destruct (uuid_filter_match f a) eqn:Em.
+      * destruct (collect_attribute c st cid k e index a) as [[st1 k1]|] eqn:Eca; [|discriminate].
+        destruct (collect_attribute_first _ _ _ _ _ _ _ _ _ Eca) as (C1 & C2 & C3 & C4).
+        assert (Hk1 : get_conn st1 cid = Some kk) by (rewrite (get_conn_conns _ _ _ C1); exact Hk).
+        destruct (IH _ _ _ _ _ _ H Hk1 ltac:(lia)) as [I1 I2].
+        split; [intros X; apply I1; apply C2; exact X|].
+        intros Hfirst Hroom Hex.
+        destruct (co_first k1) eqn:Ef1; [|apply I1; reflexivity].
+        apply I2; [reflexivity|rewrite (C3 eq_refl); exact Hroom|].
+        apply orb_true_iff in Hex. destruct Hex as [Hex|Hex]; [|exact Hex].
+        (* this attribute is wanted and readable: it is collected *)
+        exfalso. unfold wanted_readable in Hex. cbn [fst snd] in Hex.
+        apply andb_true_iff in Hex. destruct Hex as [_ Hr].
+        destruct (access_read_readable c st cid kk a index (N.min (e - co_cur k) 255 - 2) Hw Hn Ha Hr Hk) as (s2 & d & Hacc & _).
+        assert (X : true = false) by (apply C4; auto; eexists _, _; exact Hacc). discriminate X.
+      * destruct (IH _ _ _ _ _ _ H Hk ltac:(lia)) as [I1 I2]. split; [exact I1|].
+        intros Hfirst Hroom Hex. apply I2; auto.
+        apply orb_true_iff in Hex. destruct Hex as [Hex|Hex]; [|exact Hex].
+        exfalso. unfold wanted_readable in Hex. cbn [fst snd] in Hex. rewrite <- Hf, Em in Hex. rewrite andb_false_r in Hex. discriminate Hex.
+    + inversion H; subst st' k'. split; [auto|]. intros _ _ Hex. exfalso.
+      (* the scan ends here: the handle lies behind the ending handle, and so do all later ones *)
+      assert (Hgt : eh < handle_by_index c index).
+      { apply andb_false_iff in Ec. destruct Ec as [Ec|Ec]; [|lia].
+        destruct (handle_by_index c index <=? eh) eqn:E; [|lia].
+        pose proof (last_index_covers c eh index Hw Hn ltac:(lia) ltac:(lia)). lia. }
+      apply orb_true_iff in Hex. destruct Hex as [Hex|Hex].
+      * unfold wanted_readable in Hex. cbn [fst] in Hex. replace (handle_by_index c index <=? eh) with false in Hex by lia. discriminate Hex.
+      * apply existsb_exists in Hex. destruct Hex as [y [Hy1 Hy2]].
+        pose proof (skipn_table_sorted c _ _ _ Hw Hn Hsk y Hy1) as Hlt. cbn [fst] in Hlt.
+        unfold wanted_readable in Hy2. replace (fst y <=? eh) with false in Hy2 by lia. discriminate Hy2.
+  - rewrite table_end by (auto; lia). cbn [existsb].
+    destruct ((index <=? last_handle_index c eh) && (handle_by_index c index <=? eh)).
+    + rewrite attribute_at_beyond in H by lia. discriminate H.
+    + inversion H; subst st' k'. split; [auto|]. intros _ _ X. discriminate X.
+Qed.
+
+(* C02 (b) for Read By Type, second half: if a readable attribute matches, the response is a Read By Type
+   Response (opcode 09), not Attribute Not Found *)
+Theorem read_by_type_answers_readable c st cid kk a0 a1 x0 x1 tyb ty b out_size st' r :
+  wf c -> no_includes c -> get_conn st cid = Some kk ->
+  a0 < 256 -> a1 < 256 -> x0 < 256 -> x1 < 256 ->
+  req_type tyb = Some ty -> ty <> U16 internal_128bit_uuid ->
+  let lo := w16 a0 a1 in let hi := w16 x0 x1 in
+  1 <= lo -> lo <= hi -> 23 <= out_size -> out_size <= len b ->
+  handle_read_by_type c st cid (8 :: a0 :: a1 :: x0 :: x1 :: tyb) b out_size = Some (st', r) ->
+  existsb (fun x => readable c (snd x)) (matching c (KType ty) lo hi) = true ->
+  1 <= snd r /\ nth 0 (fst r) 0 = 9.
+Proof.
+  intros Hw Hn Hk Ha0 Ha1 Hx0 Hx1 Hty Hne lo hi Hlo Hhi Ho Hb H Hex.
+  destruct (make_filter_spec a0 a1 x0 x1 tyb ty Hty Hne) as (Hlen & f & Hmk & Hf). cbv zeta in Hlen, Hmk.
+  unfold handle_read_by_type, check_size_and_handle_range in H.
+  destruct (rd_prefix5 8 a0 a1 x0 x1 tyb) as (R0 & R1 & R3). cbv zeta in R0, R1, R3.
+  set (pdu := 8 :: a0 :: a1 :: x0 :: x1 :: tyb) in *.
+  rewrite R0 in H. cbv iota beta in H.
+  replace (negb (len pdu =? 7) && negb (len pdu =? 21)) with false in H by (destruct Hlen as [-> | ->]; reflexivity).
+  rewrite R1, R3 in H. cbv iota beta in H. fold (w16 a0 a1) in H. fold (w16 x0 x1) in H. fold lo in H. fold hi in H.
+  replace ((lo =? 0) || (hi <? lo)) with false in H by lia.
+  destruct (from_first_index c lo Hw Hn) as [F1 F2].
+  rewrite matching_type in Hex.
+  assert (Hex' : existsb (wanted_readable c ty hi) (from_handle lo (table c)) = true).
+  { apply existsb_exists in Hex. destruct Hex as [y [Hy1 Hy2]]. apply filter_In in Hy1. destruct Hy1 as [Hy1 Hy3].
+    apply existsb_exists. exists y. split; auto. unfold wanted_readable. rewrite Hy3, Hy2. reflexivity. }
+  destruct (first_index_by_handle c lo =? invalid_index) eqn:Efi.
+  - apply N.eqb_eq in Efi. rewrite (F1 Efi) in Hex'. discriminate Hex'.
+  - apply N.eqb_neq in Efi. destruct (F2 Efi) as [F3 F4].
+    rewrite Hmk in H. cbv iota beta in H.
+    destruct (all_attributes _ c st cid f _ out_size _ _ hi) as [[st1 k]|] eqn:Ea; [|discriminate].
+    assert (Ea' := Ea).
+    apply (aa_answers c cid f out_size hi ty Hw Hn Hf _ _ _ _ _ _ kk) in Ea; auto; [|lia].
+    destruct Ea as [_ Ea]. cbn [co_first co_cur] in Ea. rewrite F4 in Ea. specialize (Ea eq_refl ltac:(lia) Hex').
+    apply (aa_loop c cid f out_size _ hi ty Hw Hn Hf _ _ _ _ _ _ []) in Ea'; cbn [co_cur co_buf]; try lia.
+    2:{ unfold col_inv. cbn [co_cur co_buf co_first co_size]. rewrite seg_nil.
+        split; [lia|]. split; [reflexivity|]. split; [reflexivity|]. split; [intros X; discriminate X|intros x []]. }
+    destruct Ea' as (E & I1 & I2 & I3 & I4). cbn [app] in I1. destruct I1 as (J1 & J2 & J3 & J4 & J5).
+    destruct (J4 Ea) as [HE _].
+    assert (Hcur : co_cur k <> 2).
+    { intros X. rewrite X, seg_nil in J2. destruct E; [congruence|]. cbn [flat_map] in J2. unfold ebytes in J2. cbn [le16 app] in J2. discriminate J2. }
+    replace (co_cur k =? 2) with false in H by (symmetry; apply N.eqb_neq; exact Hcur). cbn [negb] in H.
+    destruct (put (co_buf k) 0 [9; co_size k]) as [b1|] eqn:Ep; [|discriminate].
+    apply AttSrvProofsC01.some_inj in H. apply AttSrvProofsC01.pair_inj in H. destruct H as [<- <-]. cbn [fst snd].
+    split; [pose proof (N.le_0_l ((co_cur k - 2) mod 256)); lia|]. rewrite (put_nth _ _ _ _ _ Ep). reflexivity.
+Qed.
